@@ -272,8 +272,8 @@ def foldBin (ext : Bool) (op : Op) (l r : Val) : Option Res :=
     | _, _, _ => none
   else foldBinOp op l r
 
-/-- `constant_fold_unary_op(op, value)`.  The `+` branch is `return value` in the code as found (the
-    bool operand itself, F25: `Cfg.unaryPlusOnBoolKeepsBool = true`) and `return +value` once repaired. -/
+/-- `constant_fold_unary_op(op, value)`.  The `+` branch was `return value` (the bool operand itself, F25:
+    `Cfg.unaryPlusOnBoolKeepsBool = true`) and is `return +value` since the repair 7f2a944 (`false`). -/
 def foldUnary (op : UOp) (v : Val) : Option Res :=
   match op, v with
   | .neg, .int i => some (.val (.int (-i)))
